@@ -328,6 +328,7 @@ def run_space(report, space, fn, workers=None, chunk=None, determinism_probe=3):
             if v > merged["maxima"].get(k, -math.inf):
                 merged["maxima"][k] = v
     merged["wall_s"] = round(time.time() - t0, 2)
+    print("  .. space %s done: %d evaluations in %.1fs" % (space.name, merged["evaluations"], merged["wall_s"]), file=sys.stderr, flush=True)
     report.add_space(space, merged)
     return merged
 
